@@ -95,6 +95,12 @@ def build_coq(targets=None):
         proj = os.path.join(COQ, "_CoqProject")
         if not os.path.exists(mk) or os.path.getmtime(mk) < os.path.getmtime(proj):
             sh(["coq_makefile", "-f", "_CoqProject", "-o", "Makefile"], cwd=COQ, check=True)
+        if not os.path.exists(os.path.join(BUILD, "extracted", "model.ml")):
+            for ext in (".vo", ".vos", ".vok", ".glob"):
+                try:
+                    os.unlink(os.path.join(COQ, "theories", "Extract", "Extract" + ext))
+                except OSError:
+                    pass
         cmd = ["timeout", "1500", "make", "-j%d" % NCPU]
         if targets:
             cmd += targets
